@@ -125,10 +125,10 @@ REAL_FUNCS = [dict(name='_dbus_type_reader_delete / reader_set_basic_variable_le
               dict(name='_dbus_string_init/_lengthen/_replace_len/_insert_*/_delete/_free (real dbus-string.c)', file=STR, status='bounded'),
               dict(name='_dbus_marshal_write_basic/_set_basic/_read_basic', file=BASIC, status='bounded'),
               dict(name='memmove/memcpy/memset', file='libc', status='stub', note='exact byte loops'),
-              dict(name='dbus_malloc/dbus_realloc/dbus_free', file='dbus/dbus-memory.c', status='stub', note='each call may fail; a successful realloc grows in place (blocks have 64 spare bytes)'),
+              dict(name='dbus_malloc/dbus_realloc/dbus_free', file='dbus/dbus-memory.c', status='stub', note='each call may fail; a successful realloc grows in place (every block has room for header bytes + 24)'),
               dict(name='fixup_alignment', file=STR, status='stub', note='align_offset stays 0 (8-aligned allocator)'),
               dict(name='_dbus_list_append/_get_first_link/_free_link (array-length fixups)', file=LIST, status='stub', note='pool of 4 links, append may fail')]
-REAL_ASSUME = ['a successful dbus_realloc grows the block in place (64 spare bytes per block); blocks are 8-aligned', 'DBusList for the fixups: pool model',
+REAL_ASSUME = ['a successful dbus_realloc grows the block in place (every block has room for header bytes + 24); blocks are 8-aligned', 'DBusList for the fixups: pool model',
                'the header image is valid per the reference decoder and the cache is consistent with it (entries correct or UNKNOWN)']
 
 
@@ -165,6 +165,6 @@ for _le, _first, _second, _del, _tier in ((1, (6, 's', 'a.b'), (5, 'u'), 6, 'qui
                       tus=[dict(file=HDR, include_as='VERIF_TU'), dict(file=STR), dict(file=BASIC), dict(file=REC), dict(file=SIG)],
                       harness='harness/c12_realdelete.c', extra_sources=[ASSERT],
                       defines=['VERIF_N=%d' % _n, 'VERIF_FIELD=%d' % _del, 'VERIF_OTHER=%d' % _other, 'VERIF_KEEP_AT=%d' % _spans[_keep][0], 'VERIF_KEEP_LEN=%d' % _spans[_keep][1], 'VERIF_HDR_ASSUME=%s' % _a],
-                      replace_calls=REAL_REPLACE, unwind=_n + 64 + 3, timeout=3000, tier=_tier, expect_s=300,
+                      replace_calls=REAL_REPLACE, unwind=_n + 24 + 3, timeout=3000, tier=_tier, expect_s=300,
                       bounds={'header_bytes': _n, 'skeleton': ('little' if _le else 'big') + ' endian, fields %s then %s; field %d deleted' % (_first, _second, _del), 'allocations': 'each may fail; realloc in place'},
                       functions=[dict(name='_dbus_header_delete_field', file=HDR, status='bounded')] + REAL_FUNCS, assumptions=REAL_ASSUME))
